@@ -6,15 +6,18 @@ from ..core import Verdict, close
 from ..refs import expr_ref as E
 
 ID = "C01"
-RULE = ("Expression ASTs of the stratified grammar (or > and > not > cmp > add > mul > pow > unary-sign chain > number | "
-        "( ) | f(x) | f(x,y)), rendered tight and with 0-2 random blanks at every legal token boundary. Oracle: an "
-        "independent level-by-level left-to-right evaluator (documented step table) sharing only scalar primitives "
-        "with the library; value and bool/number class must agree for both renderings. Ill-formed: exactly one edit of "
-        "a well-formed token list in the three classes the property names (drop/insert one parenthesis; drop/add one "
-        "function argument with its comma; delete one operand of a binary operator where the rest cannot be re-read as "
-        "a unary sign; and - the same kind of single edit - one operator deleted between parenthesised operands: '(1)(2)', "
-        "'2(3)') must raise. Strategy long_flat: 65-200 operands on one nesting level. Non-trivial: >=3 operators from >=2 steps, or a sign adjacent to **, or a chained "
-        "comparison, or function nesting >=2, or an ill-formed variant. Distinct = distinct rendered string(s).")
+RULE = (
+    'Expression ASTs of the stratified grammar (or > and > not > cmp > add > mul > pow > unary-sign chain > '
+    'number | ( ) | f(x) | f(x,y)), rendered tight and with 0-2 random blanks at every legal token boundary. '
+    'Oracle: an independent level-by-level left-to-right evaluator (documented step table) sharing only scalar '
+    'primitives with the library; value and bool/number class must agree for both renderings. Ill-formed: exactly '
+    'one edit of a well-formed token list in the three classes the property names (drop/insert one parenthesis; '
+    'drop/add one function argument with its comma; delete one operand of a binary operator where the rest cannot '
+    'be re-read as a unary sign; and - the same kind of single edit - one operator deleted between parenthesised '
+    "operands: '(1)(2)', '2(3)') must raise. Strategy long_flat: 65-200 operands on one nesting level. "
+    'Non-trivial: >=3 operators from >=2 steps, or a sign adjacent to **, or a chained comparison, or function '
+    'nesting >=2, or an ill-formed variant. Distinct = distinct rendered string(s).'
+)
 ASSUMPTIONS = [
     "default AtomBase atoms; literals are digits, decimals and unsigned exponents (1e3)",
     "cases where the reference itself hits a domain error (division by zero, overflow, complex power) are discarded",
